@@ -92,7 +92,17 @@ pub fn run_c11(w: &mut W) {
         let mut ex = Exporter::new();
         let long = rng.chance(1, 40);
         let n = if long { 20 + rng.usize(60) } else { 1 + rng.usize(max_exh) };
-        let mut pkts: Vec<Pkt> = (0..n).map(|_| seq_packet(&mut rng, &mut ex, &cfg, &w.pools)).collect();
+        let mut pkts: Vec<Pkt> = vec![];
+        for _ in 0..n {
+            // retransmissions: an exporter may send the very same datagram again
+            if !pkts.is_empty() && rng.chance(1, 6) {
+                let prev = pkts[pkts.len() - 1].clone();
+                pkts.push(prev);
+                w.rep.count("verbatim_repeats", 1);
+            } else {
+                pkts.push(seq_packet(&mut rng, &mut ex, &cfg, &w.pools));
+            }
+        }
         let mut wires: Vec<Vec<u8>> = pkts.iter().map(|p| p.wire()).collect();
         // a packet that decodes to an error may only be last
         if rng.chance(1, 5) {
@@ -359,13 +369,35 @@ pub fn run_c14(w: &mut W) {
         // templates first (own calls), so that the victim can be a data packet decoded from cache
         let warm: Vec<Vec<u8>> = (0..rng.usize(3)).map(|_| seq_packet(&mut rng, &mut ex, &cfg, &w.pools).wire()).collect();
         let before: Vec<Vec<u8>> = (0..rng.usize(4)).map(|_| seq_packet(&mut rng, &mut ex, &cfg, &w.pools).wire()).collect();
-        let victim = seq_packet(&mut rng, &mut ex, &cfg, &w.pools);
+        // every 40th victim is a V5/V7 packet around and beyond the datagram limit (the parser
+        // accepts any slice; counts up to 65535 are legal in the header)
+        let big = idx % 40 == 7;
+        let victim = if big {
+            let ver = if rng.chance(1, 2) { 5 } else { 7 };
+            let n = *rng.pick(&[1300usize, 1364, 1365, 1366, 1367, 1400, 1500, 2000, 2731]);
+            Pkt::Fixed(fixed_pkt(&mut rng, ver, n))
+        } else {
+            seq_packet(&mut rng, &mut ex, &cfg, &w.pools)
+        };
         let vw = victim.wire();
         let prefix: Vec<u8> = before.concat();
-        if prefix.len() + vw.len() > 65535 || vw.len() < 2 {
+        if (!big && prefix.len() + vw.len() > 65535) || vw.len() < 2 {
             continue;
         }
-        let cuts: Vec<usize> = if vw.len() <= 2048 && (w.thorough || vw.len() <= 400 || idx % 8 == 0) {
+        if big {
+            w.rep.count("oversize_fixed_victims", 1);
+        }
+        let cuts: Vec<usize> = if big {
+            let l = vw.len();
+            let mut c = vec![1usize, 2, 3, 23, 24, 25, l - 1, l - 2, l - 10, l - 47, l - 48, l - 49, l - 100, 65534, 65535, 65536];
+            for _ in 0..12 {
+                c.push(1 + rng.usize(l - 1));
+            }
+            c.retain(|x| *x > 0 && *x < l);
+            c.sort();
+            c.dedup();
+            c
+        } else if vw.len() <= 2048 && (w.thorough || vw.len() <= 400 || idx % 8 == 0) {
             w.rep.count("packets_with_every_cut_point", 1);
             (1..vw.len()).collect()
         } else {
